@@ -1,6 +1,7 @@
 package httpgate
 
 import (
+	"bytes"
 	"context"
 	"errors"
 	"fmt"
@@ -13,6 +14,7 @@ import (
 	"sort"
 	"strings"
 	"sync"
+	"sync/atomic"
 	"time"
 
 	"github.com/ethereum/go-ethereum/common"
@@ -21,6 +23,7 @@ import (
 	"github.com/jackc/pgproto3/v2"
 	"github.com/jackc/pgx/v4/pgxpool"
 	"github.com/rs/zerolog"
+	"github.com/spf13/cobra"
 
 	"github.com/shutter-network/rolling-shutter/rolling-shutter/keyper"
 	"github.com/shutter-network/rolling-shutter/rolling-shutter/keyper/epochkghandler"
@@ -29,6 +32,8 @@ import (
 	"github.com/shutter-network/rolling-shutter/rolling-shutter/keyperimpl/gnosis"
 	"github.com/shutter-network/rolling-shutter/rolling-shutter/keyperimpl/shutterservice"
 	"github.com/shutter-network/rolling-shutter/rolling-shutter/medley/broker"
+	"github.com/shutter-network/rolling-shutter/rolling-shutter/medley/configuration"
+	"github.com/shutter-network/rolling-shutter/rolling-shutter/medley/configuration/command"
 )
 
 // Obs is what is observed when one request is served by the real router.
@@ -263,12 +268,121 @@ func CleanupScratch() {
 	}
 }
 
-// NewFlavourGate obtains the server the deployed process of a keyper flavour would serve: the
-// flavour's real Config (NewConfig, SetDefaultValues, HTTPEnabled = true, HTTPReadOnly as the
-// operator wrote it: "unset" | "true" | "false"), the flavour's real NewKeyper (which builds the
+// ParseFlavourConfig runs the REAL configuration pipeline of a keyper flavour's command
+// (command.Build -> cobra RunE -> ParseCLI -> viper: TOML file + environment + defaults) for what
+// the operator wrote for HTTPReadOnly (src) and returns the flavour Config the command's main
+// function receives. The TOML file is the command's own generate-config output (example values)
+// with HTTPEnabled = true and the HTTPReadOnly line removed / true / false. viper's instance is
+// process-global: call this once per process (the harness uses a child process per source).
+func ParseFlavourConfig(flavour string, src Src) (cfg any, parseErr error, err error) {
+	dir, err := os.MkdirTemp(scratchRoot(), "verif-c18-cfg-")
+	if err != nil {
+		return nil, nil, err
+	}
+	defer os.RemoveAll(dir)
+	var example configuration.Config
+	switch flavour {
+	case "gnosis":
+		example = gnosis.NewConfig()
+	case "shutterservice":
+		example = shutterservice.NewConfig()
+	default:
+		return nil, nil, fmt.Errorf("unknown keyper flavour %q", flavour)
+	}
+	if err := configuration.SetExampleValuesRecursive(example); err != nil {
+		return nil, nil, err
+	}
+	var buf bytes.Buffer
+	if err := configuration.WriteTOML(&buf, example); err != nil {
+		return nil, nil, err
+	}
+	var out []string
+	seenRO, seenEn := false, false
+	for _, line := range strings.Split(buf.String(), "\n") {
+		switch {
+		case strings.HasPrefix(line, "HTTPEnabled ="):
+			seenEn = true
+			out = append(out, "HTTPEnabled = true")
+		case strings.HasPrefix(line, "HTTPReadOnly ="):
+			seenRO = true
+			if src.File == "true" || src.File == "false" {
+				out = append(out, "HTTPReadOnly = "+src.File)
+			}
+		default:
+			out = append(out, line)
+		}
+	}
+	if !seenRO || !seenEn {
+		return nil, nil, fmt.Errorf("generate-config output of %s has no HTTPEnabled / HTTPReadOnly line", flavour)
+	}
+	path := dir + "/" + flavour + ".toml"
+	if err := os.WriteFile(path, []byte(strings.Join(out, "\n")), 0o600); err != nil {
+		return nil, nil, err
+	}
+	var names []string
+	for k, v := range configuration.GetEnvironmentVarsRecursive(example) {
+		if strings.EqualFold(k, "HTTPReadOnly") {
+			names = v
+		}
+	}
+	if len(names) != 2 {
+		return nil, nil, fmt.Errorf("HTTPReadOnly of %s is bound to %v, expected a legacy and a generic variable", flavour, names)
+	}
+	for _, n := range names {
+		os.Unsetenv(n)
+	}
+	if src.Env != "absent" {
+		name := names[1]
+		if src.Name == "legacy" {
+			name = names[0]
+		}
+		val := map[string]string{"true": "true", "false": "false", "empty": "", "garbage": "maybe"}[src.Env]
+		os.Setenv(name, val)
+		defer os.Unsetenv(name)
+	}
+	var cmd *cobra.Command
+	switch flavour {
+	case "gnosis":
+		cmd = command.Build(func(c *gnosis.Config) error { cfg = c; return nil }).Command()
+	case "shutterservice":
+		cmd = command.Build(func(c *shutterservice.Config) error { cfg = c; return nil }).Command()
+	}
+	cmd.SetArgs([]string{"--config", path})
+	cmd.SilenceUsage, cmd.SilenceErrors = true, true
+	cmd.SetOut(io.Discard)
+	cmd.SetErr(io.Discard)
+	if err := cmd.Execute(); err != nil {
+		return nil, err, nil // the command refused the configuration
+	}
+	if cfg == nil {
+		return nil, nil, fmt.Errorf("the %s command did not call its main function", flavour)
+	}
+	return cfg, nil, nil
+}
+
+func scratchRoot() string {
+	if d := os.Getenv("VERIF_SCRATCH"); d != "" {
+		return d
+	}
+	return os.TempDir()
+}
+
+// FlavourReadOnly reads the flag out of a parsed flavour Config.
+func FlavourReadOnly(cfg any) bool {
+	switch c := cfg.(type) {
+	case *gnosis.Config:
+		return c.HTTPReadOnly
+	case *shutterservice.Config:
+		return c.HTTPReadOnly
+	}
+	return false
+}
+
+// NewFlavourGate obtains the server the deployed process of a keyper flavour would serve from
+// the flavour Config its command parsed: the flavour's real NewKeyper (which builds the
 // kprconfig.Config of the keyper core) and the core's own getServices (hook VerifHTTPServer),
 // then setupRouter as always.
-func NewFlavourGate(flavour, cfgRO string) (*Gate, error) {
+func NewFlavourGate(cfg any) (*Gate, error) {
 	buildMu.Lock()
 	defer buildMu.Unlock()
 	os.Unsetenv("SWAGGER_UI")
@@ -281,41 +395,19 @@ func NewFlavourGate(flavour, cfgRO string) (*Gate, error) {
 	var perr any
 	func() {
 		defer func() { perr = recover() }()
-		switch flavour {
-		case "gnosis":
-			cfg := gnosis.NewConfig()
-			if err = cfg.SetDefaultValues(); err != nil {
-				return
-			}
-			cfg.HTTPEnabled = true
-			switch cfgRO {
-			case "true":
-				cfg.HTTPReadOnly = true
-			case "false":
-				cfg.HTTPReadOnly = false
-			}
-			kpr := gnosis.VerifGnosisSlotNewKeyper(cfg, pool, nil, make(chan *broker.Event[*epochkghandler.DecryptionTrigger]))
+		switch c := cfg.(type) {
+		case *gnosis.Config:
+			kpr := gnosis.VerifGnosisSlotNewKeyper(c, pool, nil, make(chan *broker.Event[*epochkghandler.DecryptionTrigger]))
 			core, err = gnosis.NewKeyper(kpr, &gnosis.MessagingMiddleware{})
-		case "shutterservice":
-			cfg := shutterservice.NewConfig()
-			if err = cfg.SetDefaultValues(); err != nil {
-				return
-			}
-			cfg.HTTPEnabled = true
-			switch cfgRO {
-			case "true":
-				cfg.HTTPReadOnly = true
-			case "false":
-				cfg.HTTPReadOnly = false
-			}
-			kpr := shutterservice.VerifNewKeyper(cfg, pool, make(chan *broker.Event[*epochkghandler.DecryptionTrigger]))
+		case *shutterservice.Config:
+			kpr := shutterservice.VerifNewKeyper(c, pool, make(chan *broker.Event[*epochkghandler.DecryptionTrigger]))
 			core, err = shutterservice.NewKeyper(kpr, &shutterservice.MessagingMiddleware{})
 		default:
-			err = fmt.Errorf("unknown keyper flavour %q", flavour)
+			err = fmt.Errorf("unknown flavour config %T", cfg)
 		}
 	}()
 	if perr != nil {
-		err = fmt.Errorf("constructing the %s keyper panicked: %v", flavour, perr)
+		err = fmt.Errorf("constructing the keyper from %T panicked: %v", cfg, perr)
 	}
 	if err != nil {
 		pool.Close()
@@ -333,7 +425,7 @@ func NewFlavourGate(flavour, cfgRO string) (*Gate, error) {
 	}()
 	if perr != nil || srv == nil {
 		pool.Close()
-		return nil, fmt.Errorf("%s keyper with HTTPEnabled: no HTTP server in the core's service list (%v)", flavour, perr)
+		return nil, fmt.Errorf("keyper from %T with HTTPEnabled: no HTTP server in the core's service list (%v)", cfg, perr)
 	}
 	return g, nil
 }
@@ -584,3 +676,146 @@ loop:
 }
 
 var errNoCases = errors.New("TLC printed no case")
+
+// slowBody is a request body that does not arrive until release is closed.
+type slowBody struct {
+	r       *strings.Reader
+	release <-chan struct{}
+	entered *int32
+	once    sync.Once
+}
+
+func (b *slowBody) Read(p []byte) (int, error) {
+	b.once.Do(func() { atomic.AddInt32(b.entered, 1) })
+	<-b.release
+	return b.r.Read(p)
+}
+
+// Burst puts this instance through an overload: n requests `hold` in flight at once, held open by
+// bodies that do not arrive, k requests `meanwhile` while they are held, then all bodies arrive.
+func (g *Gate) Burst(n, k int, hold, meanwhile Req, body string) (*BurstInfo, int, error) {
+	info := &BurstInfo{N: n, K: k, Hold: hold, Meanwhile: meanwhile, HeldObs: []Obs{}, MeanObs: []Obs{}, Eff: []string{}}
+	var mu sync.Mutex
+	effs := map[string]bool{}
+	quitDrain, drainDone := make(chan struct{}), make(chan struct{})
+	go func() {
+		defer close(drainDone)
+		for {
+			select {
+			case <-g.trig:
+				mu.Lock()
+				effs["Trigger"] = true
+				mu.Unlock()
+			case <-g.shut:
+				mu.Lock()
+				effs["Shutdown"] = true
+				mu.Unlock()
+			case <-quitDrain:
+				return
+			}
+		}
+	}()
+	g.pg.take()
+	serve := func(req *http.Request) Obs {
+		ro := &reqObs{}
+		req = req.WithContext(context.WithValue(req.Context(), obsKey{}, ro))
+		rec := httptest.NewRecorder()
+		var esc any
+		func() {
+			defer func() { esc = recover() }()
+			g.h.ServeHTTP(rec, req)
+		}()
+		b := rec.Body.Bytes()
+		ob := Obs{Status: rec.Code, Bk: BodyKey(b), Effect: "None"}
+		if rec.Code == 200 && string(b) == "pong" {
+			ob.Effect = "Pong"
+		}
+		ro.mu.Lock()
+		if len(ro.panics) > 0 {
+			ob.Panic = ro.panics[0]
+		}
+		ro.mu.Unlock()
+		if esc != nil {
+			ob.Panic = fmt.Sprint(esc)
+		}
+		if len(ob.Panic) > 200 {
+			ob.Panic = ob.Panic[:200]
+		}
+		return ob
+	}
+	release := make(chan struct{})
+	var entered, finished int32
+	held := map[Obs]bool{}
+	var wg sync.WaitGroup
+	var firstErr error
+	for i := 0; i < n; i++ {
+		wg.Add(1)
+		go func() {
+			defer wg.Done()
+			defer atomic.AddInt32(&finished, 1)
+			req, err := newRequest(hold.M, hold.Target, "", hold.H)
+			if err != nil {
+				mu.Lock()
+				firstErr = err
+				mu.Unlock()
+				return
+			}
+			req.Body = io.NopCloser(&slowBody{r: strings.NewReader(body), release: release, entered: &entered})
+			req.ContentLength = int64(len(body))
+			ob := serve(req)
+			mu.Lock()
+			held[ob] = true
+			mu.Unlock()
+		}()
+	}
+	deadline := time.Now().Add(5 * time.Second)
+	for int(atomic.LoadInt32(&entered)+atomic.LoadInt32(&finished)) < n && time.Now().Before(deadline) {
+		time.Sleep(2 * time.Millisecond)
+	}
+	info.InFlight = int(atomic.LoadInt32(&entered))
+	mean := map[Obs]bool{}
+	for i := 0; i < k; i++ {
+		req, err := newRequest(meanwhile.M, meanwhile.Target, body, meanwhile.H)
+		if err != nil {
+			firstErr = err
+			break
+		}
+		mean[serve(req)] = true
+	}
+	close(release)
+	done := make(chan struct{})
+	go func() { wg.Wait(); close(done) }()
+	select {
+	case <-done:
+	case <-time.After(watchdog):
+		effs["Hang"] = true
+	}
+	close(quitDrain)
+	<-drainDone
+	for _, qn := range g.pg.take() {
+		effs["Read:"+qn] = true
+	}
+	mu.Lock()
+	defer mu.Unlock()
+	for ob := range held {
+		info.HeldObs = append(info.HeldObs, ob)
+	}
+	for ob := range mean {
+		info.MeanObs = append(info.MeanObs, ob)
+	}
+	for e := range effs {
+		info.Eff = append(info.Eff, e)
+	}
+	sort.Strings(info.Eff)
+	less := func(o []Obs) func(i, j int) bool {
+		return func(i, j int) bool {
+			if o[i].Status != o[j].Status {
+				return o[i].Status < o[j].Status
+			}
+			return o[i].Bk+o[i].Effect < o[j].Bk+o[j].Effect
+		}
+	}
+	sort.Slice(info.HeldObs, less(info.HeldObs))
+	sort.Slice(info.MeanObs, less(info.MeanObs))
+	return info, n + k, firstErr
+}
